@@ -342,6 +342,11 @@ class Analyzer:
             V.append(v)
         if "nofault" in self.want:
             V.append(discharge("nofault_when_defined", base + [defined], enc.cpp_fault(), self.timeout_ms))
+            if len(enc.event.store) >= 2:
+                # laziness of retrieval: a collection that is absent from the event makes the job fail only if the query
+                # evaluates it on this event (presence of every store key symbolic)
+                v = discharge("nofault_when_absent_collection_not_evaluated", enc.base(all_present=False) + [defined], enc.cpp_fault(), self.timeout_ms)
+                V.append(v)
         if "loud" in self.want:
             part = [g for g, k in enc.ref.undef if k in ("first_empty", "index")]
             other = [g for g, k in enc.ref.undef if k not in ("first_empty", "index")]
@@ -468,29 +473,40 @@ class Analyzer:
             else:
                 ce1.tables[name] = ({}, _Fr(29, 4), rng)
         wd = self.scratch("replay")
-        try:
-            res = compile_and_run(enc.pkg, enc.dm, [ce1, ce, ce0, ce, ce, ce1, ce], dict(enc.event.strings), wd)
-        except ReplayUnsupported as e:
-            r.inconclusive.append((v.name, f"cannot replay: {e}"))
-            v.status = "inconclusive"
-            return
-        if not res["ok_compile"]:
-            r.inconclusive.append((v.name, "replay build failed: " + res["compile_log"][:500]))
-            v.status = "inconclusive"
-            shutil.rmtree(wd, ignore_errors=True)
-            return
-        evs = res["outcome"]["events"]
-        rows = [e["rows"] for e in evs]
-        # a faulting event ends the job: only the events actually processed are compared (positions 1, 3, 4, 6 are E; 0 and 5 are E1,
-        # the full event - what an event that writes nothing leaves behind shows in the rows of the NEXT event that does write)
-        same_e = [rows[i] for i in (1, 3, 4, 6) if i < len(evs)]
-        same_e1 = [rows[i] for i in (0, 5) if i < len(evs)]
-        differs = (len(same_e) >= 2 and any(x != same_e[0] for x in same_e[1:])) or (len(same_e1) == 2 and same_e1[0] != same_e1[1])
-        if len(same_e1) == 2 and same_e1[0] != same_e1[1] and not (len(same_e) >= 2 and any(x != same_e[0] for x in same_e[1:])):
-            same_e = same_e1
-        if differs:
+        # concrete histories (E = the model's event, E0 = E with every collection empty, E1 = the full event).  A faulting event
+        # ends the job, so several orders are tried; in each, the rows of every occurrence of the same event are compared
+        # (what an event that writes nothing leaves behind shows in the rows of the NEXT event that does write).
+        histories = [("E1 E E0 E E E1 E", [ce1, ce, ce0, ce, ce, ce1, ce], "1034016".replace("0", "0")),
+                     ("E E1 E E1", [ce, ce1, ce, ce1], None),
+                     ("E1 E E1 E", [ce1, ce, ce1, ce], None)]
+        labels = {"E1 E E0 E E E1 E": ["E1", "E", "E0", "E", "E", "E1", "E"], "E E1 E E1": ["E", "E1", "E", "E1"], "E1 E E1 E": ["E1", "E", "E1", "E"]}
+        found = None
+        for hname, hist, _ in histories:
+            try:
+                res = compile_and_run(enc.pkg, enc.dm, hist, dict(enc.event.strings), wd)
+            except ReplayUnsupported as e:
+                r.inconclusive.append((v.name, f"cannot replay: {e}"))
+                v.status = "inconclusive"
+                return
+            if not res["ok_compile"]:
+                r.inconclusive.append((v.name, "replay build failed: " + res["compile_log"][:500]))
+                v.status = "inconclusive"
+                shutil.rmtree(wd, ignore_errors=True)
+                return
+            evs = res["outcome"]["events"]
+            rows = [e["rows"] for e in evs]
+            by = {}
+            for lab, rw in zip(labels[hname], rows):
+                by.setdefault(lab, []).append(rw)
+            for lab, rws in by.items():
+                if len(rws) >= 2 and any(x != rws[0] for x in rws[1:]):
+                    found = (hname, lab, rws)
+                    break
+            if found:
+                break
+        if found:
             d = bundle_dir(self.prop, prog, v.name)
-            text = f"rows for the same event differ with history: first={rows[0]} after other events={same_e[1:]}"
+            text = f"rows for the same event differ with history: first={found[2][0]} after other events={found[2][1:]} (history {found[0]}, event {found[1]})"
             write_bundle(d, prog, enc.pkg, {"obligation": v.name, "text": text, "event": ce.to_json()})
             shutil.copy(wd / "driver.cxx", d / "driver.cxx")
             shutil.copytree(wd / "inc", d / "inc", dirs_exist_ok=True)
@@ -498,7 +514,7 @@ class Analyzer:
             v.detail = text
         else:
             v.status = "spurious"
-            v.detail = "pre-state of the inductive step not reproduced by the concrete history [E1, E, E0, E, E, E1, E]"
+            v.detail = "pre-state of the inductive step not reproduced by the concrete histories [E1,E,E0,E,E,E1,E], [E,E1,E,E1], [E1,E,E1,E]"
             r.spurious.append((v.name, v.detail))
             r.inconclusive.append((v.name, v.detail + " (the invariant may be too weak for this program)"))
         shutil.rmtree(wd, ignore_errors=True)
@@ -698,6 +714,8 @@ class Analyzer:
             shutil.rmtree(wd, ignore_errors=True)
             return
         reproduced = rp["mismatch"] is True
+        if v.name == "nofault_when_absent_collection_not_evaluated":
+            pass
         if v.name.startswith("absent_"):
             f = rp["cpp"]["fault"]
             reproduced = f is None or f[0] not in LOUD
